@@ -130,5 +130,9 @@ func init() {
 		}
 		return ""
 	}
+	{ // concurrent callers / readers (concurrent.go), after the sequential phases
+		conc, run := concPhase(p, concSighash(true)), p.Run
+		p.Run = func(c *mon.Ctx) { run(c); conc(c) }
+	}
 	mon.Register(p)
 }
